@@ -22,6 +22,10 @@ def run(F, X, rep):
     # "a well-formed accompanying amount field must agree": the field must be found wherever the sender put it
     H.g1_lookup_by_type(C, rep, "C10-L")
     E.x_info_built_from_request(C, rep, "C10-X")
+    # "a well-formed accompanying amount field must agree": what counts as well formed is C18-U (0..8 bytes, the empty
+    # field is the canonical zero)
+    import p_c18
+    p_c18.c18_u(F, X, rep, p_c18.tlv_bodies(F))
     if H.need_hh(C, rep, "C10-R"):
         E.r_self_route_hint(C, rep, "C10-R")
         H.n2_forward_classification(C, rep, "C10-C")
